@@ -189,7 +189,13 @@ pub fn load_known() -> Vec<Known> {
     let mut out = vec![];
     for f in v.get("findings").and_then(Value::as_array).cloned().unwrap_or_default() {
         let g = |k: &str| f.get(k).and_then(Value::as_str).unwrap_or("").to_string();
-        out.push(Known { property: g("property"), id: g("id"), status: g("status"), signature: g("signature"), what: g("what") });
+        let mut sigs: Vec<String> = f.get("signatures").and_then(Value::as_array).map(|a| a.iter().filter_map(|x| x.as_str().map(String::from)).collect()).unwrap_or_default();
+        if !g("signature").is_empty() {
+            sigs.push(g("signature"));
+        }
+        for signature in sigs {
+            out.push(Known { property: g("property"), id: g("id"), status: g("status"), signature, what: g("what") });
+        }
     }
     out
 }
